@@ -6,12 +6,35 @@ use std::sync::atomic::{AtomicBool, AtomicI64, AtomicU64, Ordering::Relaxed};
 pub struct Counting;
 static ON: AtomicBool = AtomicBool::new(false);
 static LIVE: AtomicI64 = AtomicI64::new(0);
+static PEAK: AtomicI64 = AtomicI64::new(0);
 static ENTER_MS: AtomicU64 = AtomicU64::new(0);
+/// fuse: a counted call that holds / asks for more than this is not survivable for the engine (the
+/// machine may not have the memory, an allocation failure aborts); the process exits with code 103
+/// after naming the request.  Cases that are expected to come near it run in a child process (`iso`).
+static FUSE: AtomicI64 = AtomicI64::new(3 << 30);
+
+#[cold]
+fn blown(req: usize, live: i64) -> ! {
+    ON.store(false, Relaxed);
+    eprintln!("ALLOC-FUSE: a receiver call asked for {} B with {} B already held by it (fuse {} B)", req, live, FUSE.load(Relaxed));
+    std::process::exit(103);
+}
+
+#[inline]
+fn account(delta: i64, req: usize) {
+    let v = LIVE.fetch_add(delta, Relaxed) + delta;
+    if delta > 0 {
+        PEAK.fetch_max(v, Relaxed);
+        if v > FUSE.load(Relaxed) {
+            blown(req, v - delta);
+        }
+    }
+}
 
 unsafe impl GlobalAlloc for Counting {
     unsafe fn alloc(&self, l: Layout) -> *mut u8 {
         if ON.load(Relaxed) {
-            LIVE.fetch_add(l.size() as i64, Relaxed);
+            account(l.size() as i64, l.size());
         }
         System.alloc(l)
     }
@@ -23,7 +46,7 @@ unsafe impl GlobalAlloc for Counting {
     }
     unsafe fn realloc(&self, p: *mut u8, l: Layout, new_size: usize) -> *mut u8 {
         if ON.load(Relaxed) {
-            LIVE.fetch_add(new_size as i64 - l.size() as i64, Relaxed);
+            account(new_size as i64 - l.size() as i64, new_size);
         }
         System.realloc(p, l, new_size)
     }
@@ -49,6 +72,17 @@ pub fn live() -> i64 {
 }
 pub fn reset() {
     LIVE.store(0, Relaxed);
+    PEAK.store(0, Relaxed);
+}
+/// highest value of `live()` since the last `mark()`
+pub fn peak() -> i64 {
+    PEAK.load(Relaxed)
+}
+pub fn mark() {
+    PEAK.store(LIVE.load(Relaxed), Relaxed);
+}
+pub fn set_fuse(bytes: i64) {
+    FUSE.store(bytes, Relaxed);
 }
 /// a receiver call starts / ends (watchdog)
 pub fn enter() {
